@@ -5,6 +5,13 @@
 //! arguments; the result, the error side/code and the number of items pulled from each argument are compared with
 //! C07/EntryModel.v), isomorphic_graphs on fallible graphs and on graph views of datasets, and the model run with
 //! exactly the number of rounds proved sufficient in C07/LoopProofs.v (iso_tight_ok).
+//! TWIN stream (case ids >= TWIN_BASE, one for every 4 cases of the random stream): datasets containing groups of 2..4
+//! statements that are identical once blank nodes are blanked out except for ONE ground atom at one position (language tag
+//! in any case mix / datatype / lexical form / IRI / variable name / kind of term / presence and value of the graph name; as
+//! subject, predicate, object or graph name, at depth 0..2 inside quoted triples; the rest of the statements ground or with
+//! shared / per-twin blank nodes), compared in insertion-order-preserving containers (Vec on both sides) with the renamed
+//! (and re-cased) copy enumerating each group in EVERY relative order, plus whole-list reversals and shuffles, the other
+//! container types, the graph entry point, and mutants of one twin; C07/TwinModel.v checks the twin structure and the answers.
 use sophia_api::prelude::*;
 use sophia_api::source::StreamError::{SinkError, SourceError};
 use std::cell::Cell;
@@ -163,15 +170,240 @@ fn c_trip(t: &[ST; 3]) -> String { format!("({}, {}, {})", coq_term(&t[0]), coq_
 fn c_quad(q: &Q) -> String { format!("(mkQ {} {} {} {})", coq_term(&q.0[0]), coq_term(&q.0[1]), coq_term(&q.0[2]), coq_opt(q.1.as_ref().map(|g| coq_term(g)))) }
 fn dedup(v: &[Q]) -> Vec<Q> { let mut out: Vec<Q> = vec![]; for q in v { if !out.iter().any(|x| Quad::eq(x, (q.0.each_ref(), q.1.as_ref()))) { out.push(q.clone()) } } out }
 
+// ====================================================================================================================
+// the TWIN stream
+// ====================================================================================================================
+const TWIN_BASE: usize = 1_000_000;
+const RDF_LANGSTRING: &str = "http://www.w3.org/1999/02/22-rdf-syntax-ns#langString";
+
+fn random_case(s: &str, r: &mut Rng) -> String { s.chars().map(|c| if r.chance(1, 2) { c.to_ascii_uppercase() } else { c.to_ascii_lowercase() }).collect() }
+fn recase_t(t: &ST, r: &mut Rng) -> ST {
+    match t {
+        SimpleTerm::LiteralLanguage(l, tag) => lit_lang(l, &random_case(tag.as_str(), r)),
+        SimpleTerm::Triple(tr) => triple(recase_t(&tr[0], r), recase_t(&tr[1], r), recase_t(&tr[2], r)),
+        _ => t.clone(),
+    }
+}
+fn recase_q(q: &Q, r: &mut Rng) -> Q { ([recase_t(&q.0[0], r), recase_t(&q.0[1], r), recase_t(&q.0[2], r)], q.1.as_ref().map(|g| recase_t(g, r))) }
+fn q_eq(a: &Q, b: &Q) -> bool { Quad::eq(a, (b.0.each_ref(), b.1.as_ref())) }
+
+/// a family of pairwise different (Term::eq) things that can stand at one position and differ minimally from each other;
+/// None = "no graph name" (only for the family of graph names)
+fn twin_family(r: &mut Rng) -> (&'static str, Vec<Option<ST>>) {
+    let lex = r.ps(&["chat", "x", "", "a b"]).to_string();
+    let some = |v: Vec<ST>| v.into_iter().map(Some).collect::<Vec<_>>();
+    match r.below(12) {
+        0..=2 => ("language-tag", some(["en", "fr", "en-GB", "en-US", "de", "fr-BE", "e", "enx", "f"].iter().map(|t| lit_lang(&lex, &random_case(t, r))).collect())),
+        3 => ("language-tag-or-datatype", some(vec![lit_lang(&lex, &random_case("en", r)), lit_dt(&lex, &format!("{XSD}string")), lit_lang(&lex, &random_case("fr", r)),
+                  lit_dt(&lex, &format!("{RDF_LANGSTRING}x")), lit_dt(&lex, &RDF_LANGSTRING[..RDF_LANGSTRING.len() - 1]), lit_dt(&lex, &RDF_LANGSTRING.to_ascii_lowercase()), lit_lang(&lex, &random_case("en-gb", r))])),
+        4 => ("datatype", some(["string", "integer", "int", "Integer", "strin", "strinG", "string/", ""].iter().map(|d| lit_dt(&lex, &format!("{XSD}{d}"))).collect())),
+        5 => { let tagged = r.chance(1, 2); let tag = random_case(r.ps(&["en", "fr-be"]), r);
+               ("lexical-form", some(["chat", "chats", "cha", "", "Chat", "chat ", "chau", "ch\u{e2}t", "\u{1F408}"].iter().map(|l| if tagged { lit_lang(l, &tag) } else { lit_dt(l, &format!("{XSD}string")) }).collect())) }
+        6 | 7 => ("iri", some(["http://e/a", "http://e/ab", "http://e/A", "http://e/a/", "http://e/", "http://e/a#", "http://e/b", "http://f/a", "a"].iter().map(|i| iri(i)).collect())),
+        8 => ("variable", some(["v", "vv", "V", "w", "v1", "a"].iter().map(|v| var(v)).collect())),
+        9 => ("kind-of-term", some(vec![iri("a"), lit_dt("a", &format!("{XSD}string")), lit_lang("a", "a"), var("a"), lit_dt("a", "a"), iri("en"), lit_lang("en", "en"), lit_dt("en", &format!("{XSD}string"))])),
+        _ => ("graph-name", vec![None, Some(iri("http://e/g")), Some(iri("http://e/g2")), Some(iri("http://e/G")), Some(lit_lang("g", "en")), Some(lit_lang("g", "fr")), Some(lit_dt("g", &format!("{XSD}string"))), Some(var("g"))]),
+    }
+}
+/// what stands at the other positions of the statements of a twin group
+#[derive(Clone, Debug)]
+enum Fill { Ground(ST), Shared(String), PerTwin(String), QShared(String, ST), QPerTwin(String, ST), QGround(ST, ST) }
+impl Fill {
+    fn term(&self, i: usize) -> ST {
+        match self {
+            Fill::Ground(t) => t.clone(), Fill::Shared(l) => bnode(l), Fill::PerTwin(p) => bnode(&format!("{p}{i}")),
+            Fill::QShared(l, o) => triple(bnode(l), iri("http://e/p"), o.clone()),
+            Fill::QPerTwin(p, o) => triple(o.clone(), iri("http://e/q"), bnode(&format!("{p}{i}"))),
+            Fill::QGround(a, b) => triple(a.clone(), iri("http://e/p"), b.clone()),
+        }
+    }
+    fn per_twin(&self) -> Option<&str> { match self { Fill::PerTwin(p) | Fill::QPerTwin(p, _) => Some(p), _ => None } }
+}
+/// `blanks`: 0 = ground only, 1 = ground or blank nodes shared by all the twins, 2 = also blank nodes of their own for each twin
+fn gen_fill(r: &mut Rng, uniq: &str, blanks: usize, predicate: bool) -> Fill {
+    if predicate && r.chance(3, 4) { return Fill::Ground(iri(&format!("http://e/{}", r.ps(&["p", "q"])))); }
+    let k = match blanks { 0 => [0, 0, 0, 5][r.below(4)], 1 => r.pick(&[0, 1, 1, 3, 5]).clone(), _ => r.below(6) };
+    match k {
+        0 => Fill::Ground(gen_ground(r)), 1 => Fill::Shared(format!("b{}", r.below(2))), 2 => Fill::PerTwin(format!("t{uniq}x")),
+        3 => Fill::QShared(format!("b{}", r.below(2)), gen_ground(r)), 4 => Fill::QPerTwin(format!("t{uniq}x"), gen_ground(r)),
+        _ => Fill::QGround(gen_ground(r), gen_ground(r)),
+    }
+}
+struct TwinGroup { family: &'static str, top: [Fill; 3], g: Option<Fill>, pos: usize, levels: Vec<([Fill; 3], usize)>, atoms: Vec<Option<ST>>, spare: Vec<Option<ST>> }
+impl TwinGroup {
+    fn build(&self, i: usize, atom: &Option<ST>) -> Q {
+        let mut spo = [self.top[0].term(i), self.top[1].term(i), self.top[2].term(i)];
+        let mut g = self.g.as_ref().map(|f| f.term(i));
+        let nested = atom.as_ref().map(|a| { let mut t = a.clone(); for (sib, d) in self.levels.iter().rev() { let mut parts = [sib[0].term(i), sib[1].term(i), sib[2].term(i)]; parts[*d] = t; t = triple(parts[0].clone(), parts[1].clone(), parts[2].clone()); } t });
+        if self.pos < 3 { spo[self.pos] = nested.unwrap(); } else { g = nested; }
+        (spo, g)
+    }
+    fn twins(&self) -> Vec<Q> { (0..self.atoms.len()).map(|i| self.build(i, &self.atoms[i])).collect() }
+    fn path(&self) -> String { format!("{}{}", ["subject", "predicate", "object", "graph name"][self.pos], self.levels.iter().map(|(_, d)| format!(" > {} of the quoted triple", ["subject", "predicate", "object"][*d])).collect::<String>()) }
+    fn per_twin_prefixes(&self) -> Vec<String> { let mut v: Vec<String> = vec![]; for f in self.top.iter().chain(self.g.iter()).chain(self.levels.iter().flat_map(|(s, _)| s.iter())) { if let Some(p) = f.per_twin() { if !v.iter().any(|x| x == p) { v.push(p.to_string()); } } } v }
+    /// Coq: the twins as (template, thing put at the position); the template holds a placeholder at the position
+    fn coq(&self, d1: &str) -> String {
+        let hole = Some(iri("hole"));
+        let tw = coq_list((0..self.atoms.len()).map(|i| { let t = if self.pos == 3 && self.levels.is_empty() { self.build(i, &None) } else { self.build(i, &hole) }; format!("({}, {})", c_quad(&t), coq_opt(self.atoms[i].as_ref().map(|a| coq_term(a)))) }));
+        format!("twin_ok {} {} {tw} {d1}", self.pos, coq_list(self.levels.iter().map(|(_, d)| d.to_string())))
+    }
+}
+fn gen_twin_group(r: &mut Rng, gi: usize, max_k: usize) -> TwinGroup {
+    let (family, mut pool) = twin_family(r);
+    let graph_family = family == "graph-name";
+    let blanks = r.below(3);
+    let pos = if graph_family { 3 } else { *r.pick(&[0, 1, 2, 2, 2, 3]) };
+    let depth = if graph_family { 0 } else { *r.pick(&[0, 0, 0, 1, 1, 2]) };
+    let levels: Vec<([Fill; 3], usize)> = (0..depth).map(|l| { let d = r.below(3); ([gen_fill(r, &format!("{gi}l{l}s"), blanks, false), gen_fill(r, &format!("{gi}l{l}p"), blanks, true), gen_fill(r, &format!("{gi}l{l}o"), blanks, false)], d) }).collect();
+    let top = [gen_fill(r, &format!("{gi}s"), blanks, false), gen_fill(r, &format!("{gi}p"), blanks, true), gen_fill(r, &format!("{gi}o"), blanks, false)];
+    let g = if pos == 3 || r.chance(1, 3) { Some(if r.chance(1, 2) { Fill::Ground(iri("http://e/g")) } else { gen_fill(r, &format!("{gi}g"), blanks, false) }) } else { None };
+    shuffle(&mut pool, r);
+    let k = r.range(2, max_k).min(pool.len());
+    let atoms: Vec<Option<ST>> = pool.drain(..k).collect();
+    TwinGroup { family, top, g, pos, levels, atoms, spare: pool }
+}
+struct LazyText<'a>(&'a dyn Fn() -> String);
+impl std::fmt::Display for LazyText<'_> { fn fmt(&self, f: &mut std::fmt::Formatter<'_>) -> std::fmt::Result { f.write_str(&(self.0)()) } }
+/// all the permutations of 0..k, the identity first
+fn all_perms(k: usize) -> Vec<Vec<usize>> {
+    if k == 0 { return vec![vec![]]; }
+    let mut out = vec![]; for p in all_perms(k - 1) { for at in (0..=p.len()).rev() { let mut q = p.clone(); q.insert(at, k - 1); out.push(q); } } out
+}
+fn all_bnodes(d: &[Q]) -> BTreeSet<String> { let mut s = BTreeSet::new(); for q in d { for t in q.0.iter() { bnodes(t, &mut s) } if let Some(g) = &q.1 { bnodes(g, &mut s) } } s }
+fn sorted_keys(d: &[Q]) -> Vec<String> { let mut k: Vec<String> = d.iter().map(blank_qkey).collect(); k.sort(); k }
+
+/// one case of the twin stream; returns the Coq body
+fn twin_case(idx: usize, base: &Rng, verbose: bool, sum: &mut Summary, seen: &mut HashSet<String>) -> String {
+    use sophia_isomorphism::isomorphic_graphs;
+    let mut r = base.fork(idx as u64);
+    // padding beyond the size up to which sort_unstable is an insertion sort (every 6th case; then a single group)
+    let padded = r.chance(1, 6);
+    let ground_context = r.chance(1, 4);
+    let two = !padded && r.chance(1, 3);
+    // ---- the first dataset: the twin groups first (tagged), then context statements, then everything shuffled
+    let mut groups = vec![gen_twin_group(&mut r, 0, if two || padded { 3 } else { 4 })];
+    let mut d1: Vec<Q> = groups[0].twins(); let mut tag: Vec<Option<(usize, usize)>> = (0..d1.len()).map(|i| Some((0, i))).collect();
+    if two { let g2 = gen_twin_group(&mut r, 1, 3); let tw = g2.twins(); if !tw.iter().any(|q| d1.iter().any(|x| q_eq(x, q))) { for (i, q) in tw.into_iter().enumerate() { d1.push(q); tag.push(Some((1, i))); } groups.push(g2); } }
+    let add = |d1: &mut Vec<Q>, tag: &mut Vec<Option<(usize, usize)>>, q: Q| { if !d1.iter().any(|x| q_eq(x, &q)) { d1.push(q); tag.push(None); } };
+    // statements telling the per-twin blank nodes apart (half of the time): the refinement then has to pair the right twins
+    for gi in 0..groups.len() { for p in groups[gi].per_twin_prefixes() { if r.chance(1, 2) { for i in 0..groups[gi].atoms.len() { if r.chance(3, 4) { add(&mut d1, &mut tag, ([bnode(&format!("{p}{i}")), iri("http://e/n"), lit_dt(&format!("{}", if r.chance(1, 4) { 0 } else { i }), &format!("{XSD}integer"))], None)); } } } } }
+    for _ in 0..r.below(4) { let q: Q = if ground_context { ([gen_ground(&mut r), iri(&format!("http://e/{}", r.ps(&["p", "q"]))), gen_ground(&mut r)], match r.below(4) { 0 => Some(gen_ground(&mut r)), _ => None }) } else { ([gen_term(&mut r, 2, 1), iri(&format!("http://e/{}", r.ps(&["p", "q"]))), gen_term(&mut r, 2, 1)], match r.below(4) { 0 => Some(gen_term(&mut r, 2, 0)), _ => None }) }; add(&mut d1, &mut tag, q); }
+    if padded { for j in 0..r.range(18, 40) { let q: Q = ([iri(&format!("http://e/pad{}", j % 7)), iri(&format!("http://e/{}", r.ps(&["p", "q"]))), if j % 3 == 0 && !ground_context { bnode(&format!("b{}", j % 2)) } else { lit_dt(&format!("{j}"), &format!("{XSD}integer")) }], if j % 5 == 0 { Some(iri("http://e/g")) } else { None }); add(&mut d1, &mut tag, q); } }
+    { let mut both: Vec<(Q, Option<(usize, usize)>)> = d1.into_iter().zip(tag.into_iter()).collect(); shuffle(&mut both, &mut r); let (a, b): (Vec<_>, Vec<_>) = both.into_iter().unzip(); d1 = a; tag = b; }
+    // ---- the copy: blank nodes renamed by a bijection, language tags in another case mix (half of the time), same order
+    let labels: Vec<String> = all_bnodes(&d1).into_iter().collect();
+    let mut perm = labels.clone(); if r.chance(1, 2) { shuffle(&mut perm, &mut r); } else { let sfx = format!("x{}", r.below(3)); perm = labels.iter().map(|l| format!("{l}{sfx}")).collect(); }
+    let recased = r.chance(1, 2);
+    let mut d2: Vec<Q> = d1.iter().map(|q| rename_q(q, &|b| perm[labels.iter().position(|l| l == b).unwrap()].clone())).collect();
+    if recased { d2 = d2.iter().map(|q| recase_q(q, &mut r)).collect(); }
+    let mut tag2 = tag.clone();
+    // ---- mutants (every 4th case): the copy differs from the original in the twin group
+    let mutant = match r.below(16) { 0 => 1, 1 => 2, 2 => 3, 3 => 4, _ => 0 };
+    let mut_name = ["copy", "one-twin-gets-an-atom-outside-the-group", "one-twin-removed", "one-twin-gets-the-atom-of-another", "two-twins-exchange-their-atoms"][mutant];
+    if mutant > 0 {
+        let gi = r.below(groups.len()); let grp = &groups[gi]; let k = grp.atoms.len(); let i = r.below(k); let j = (i + 1 + r.below(k - 1)) % k;
+        let at = |i: usize| tag2.iter().position(|t| *t == Some((gi, i))).unwrap();
+        let redo = |i: usize, atom: &Option<ST>, r: &mut Rng| -> Q { let q = rename_q(&grp.build(i, atom), &|b| perm[labels.iter().position(|l| l == b).unwrap()].clone()); if recased { recase_q(&q, r) } else { q } };
+        match mutant {
+            1 => { if let Some(x) = grp.spare.first() { let p = at(i); d2[p] = redo(i, x, &mut r); } }
+            2 => { let p = at(i); d2.remove(p); tag2.remove(p); }
+            3 => { let p = at(i); d2[p] = redo(i, &grp.atoms[j], &mut r); }
+            _ => { let (p, q) = (at(i), at(j)); d2[p] = redo(i, &grp.atoms[j], &mut r); d2[q] = redo(j, &grp.atoms[i], &mut r); }
+        }
+        // drop duplicates (keeping the tags of the survivors)
+        let mut keep: Vec<Q> = vec![]; let mut keep_t = vec![]; for (q, t) in d2.iter().zip(tag2.iter()) { if !keep.iter().any(|x| q_eq(x, q)) { keep.push(q.clone()); keep_t.push(*t); } } d2 = keep; tag2 = keep_t;
+    }
+    // ---- what the property says about (d1, any enumeration order of d2)
+    let (k1, k2) = (sorted_keys(&d1), sorted_keys(&d2)); let (nb1, nb2) = (all_bnodes(&d1).len(), all_bnodes(&d2).len());
+    let must_be_false = k1 != k2 || nb1 != nb2 || d1.len() != d2.len();
+    let expect_true = mutant == 0;
+    assert!(!(expect_true && must_be_false), "twin stream generator: the copy is not a copy (case {idx})");
+    // ---- every relative order of each twin group in the copy (the other statements stay where they are), then the whole
+    // list reversed and two shuffles of it
+    let gpos: Vec<Vec<usize>> = (0..groups.len()).map(|gi| (0..d2.len()).filter(|p| matches!(tag2[*p], Some((g, _)) if g == gi)).collect()).collect();
+    let mut orders: Vec<(String, Vec<Q>)> = vec![];
+    let p0 = all_perms(gpos[0].len()); let p1 = if groups.len() > 1 { all_perms(gpos[1].len()) } else { vec![vec![]] };
+    // (two groups: every order of each group against the original order of the other one, and 6 random combinations)
+    let mut combos: Vec<(Vec<usize>, Vec<usize>)> = vec![];
+    if groups.len() == 1 { for a in &p0 { combos.push((a.clone(), vec![])); } } else { for a in &p0 { combos.push((a.clone(), p1[0].clone())); } for b in p1.iter().skip(1) { combos.push((p0[0].clone(), b.clone())); } for _ in 0..6 { combos.push((r.pick(&p0).clone(), r.pick(&p1).clone())); } }
+    for (a, b) in &combos { { let mut v = d2.clone(); for (j, src) in a.iter().enumerate() { v[gpos[0][j]] = d2[gpos[0][*src]].clone(); } for (j, src) in b.iter().enumerate() { v[gpos[1][j]] = d2[gpos[1][*src]].clone(); } orders.push((format!("twins-in-order {a:?}{}", if groups.len() > 1 { format!(" x {b:?}") } else { String::new() }), v)); } }
+    { let mut v = d2.clone(); v.reverse(); orders.push(("reversed".into(), v)); }
+    for _ in 0..2 { let mut v = d2.clone(); shuffle(&mut v, &mut r); orders.push(("shuffled".into(), v)); }
+    let what = format!("twin group(s) {}", groups.iter().map(|g| format!("[{} statements differing only in the {} at {}]", g.atoms.len(), g.family, g.path())).collect::<Vec<_>>().join(" and "));
+    if verbose { println!("CASE {idx} (twin stream): {what}; second dataset = {mut_name}{}{}\nd1={d1:?}\nd2={d2:?}", if recased { ", language tags re-cased" } else { "" }, if padded { ", padded" } else { "" }); }
+    let as_ds = |t: &[[ST; 3]]| -> Vec<Q> { t.iter().map(|x| (x.clone(), None)).collect() };
+    let mut results: Vec<(bool, bool)> = vec![]; let mut suspicious: Vec<usize> = vec![];
+    for (oi, (oname, v)) in orders.iter().enumerate() {
+        let ans = isomorphic_datasets(&d1, v).unwrap(); let rev = isomorphic_datasets(v, &d1).unwrap();
+        let text = LazyText(&|| format!("{what}; second dataset = {mut_name}, {oname}; both in Vec; d1={d1:?} d2={v:?}"));
+        if verbose { println!("ORDER {oi} {oname}: IMPL {ans} (reverse {rev})"); }
+        let before = sum.oracle_failures.len();
+        if ans != rev { sum.oracle_failures.push((idx.to_string(), format!("not symmetric: iso(d1,d2)={ans} iso(d2,d1)={rev}; {text}"))); }
+        if expect_true && !(ans && rev) { sum.oracle_failures.push((idx.to_string(), format!("false negative on a renamed copy that enumerates its statements in another order (iso(d1,d2)={ans} iso(d2,d1)={rev}); {text}"))); }
+        if must_be_false && (ans || rev) { sum.oracle_failures.push((idx.to_string(), format!("answered true although the datasets differ in size, blank node count or a blanked statement; {text}"))); }
+        if ans != results.first().map_or(ans, |x| x.0) { sum.oracle_failures.push((idx.to_string(), format!("the answer depends on the order in which the second dataset enumerates its statements: {} for the first order, {ans} for this one; {text}", results[0].0))); }
+        // the graph entry point: default graphs and unions of all graphs (lists, duplicates kept) of the same two enumerations
+        for union in [false, true] {
+            if union && oi >= 4 { continue; }
+            let tr = |d: &[Q]| -> Vec<[ST; 3]> { d.iter().filter(|q| union || q.1.is_none()).map(|q| q.0.clone()).collect() };
+            let (t1, t2) = (tr(&d1), tr(v));
+            let ga = isomorphic_graphs(&t1, &t2).unwrap(); let gr = isomorphic_graphs(&t2, &t1).unwrap();
+            let gname = if union { "union of all graphs" } else { "default graph" };
+            if ga != gr { sum.oracle_failures.push((idx.to_string(), format!("isomorphic_graphs not symmetric on the {gname}: {ga} vs {gr}; t1={t1:?} t2={t2:?}"))); }
+            if expect_true && !ga { sum.oracle_failures.push((idx.to_string(), format!("false negative of isomorphic_graphs on the {gname} of a renamed copy that enumerates its statements in another order; {what}; t1={t1:?} t2={t2:?}"))); }
+            if !union && oi < 4 { let da = isomorphic_datasets(&as_ds(&t1), &as_ds(&t2)).unwrap(); if ga != da { sum.oracle_failures.push((idx.to_string(), format!("isomorphic_graphs answers {ga} but isomorphic_datasets answers {da} on the same triples placed in the default graph; t1={t1:?} t2={t2:?}"))); } }
+        }
+        if sum.oracle_failures.len() > before { suspicious.push(oi); }
+        results.push((ans, rev));
+        sum.bump("twin-orders-evaluated");
+    }
+    // ---- the other pairs of container types on the first order (sets re-order and the stores re-index the statements)
+    for kind in 1..5 { let ans = iso_in(kind, &d1, &orders[0].1); let rev = iso_in(kind, &orders[0].1, &d1);
+        if verbose { println!("CONTAINERS#{kind}: IMPL {ans} (reverse {rev})"); }
+        if ans != results[0].0 || rev != results[0].1 { sum.oracle_failures.push((idx.to_string(), format!("containers#{kind} answer {ans} (reverse {rev}) but two Vec answer {} (reverse {}) on the same statements; {what}; d1={d1:?} d2={:?}", results[0].0, results[0].1, orders[0].1))); } }
+    let nontrivial = !must_be_false;
+    if seen.insert(format!("{d1:?}{d2:?}")) && nontrivial { sum.distinct_nontrivial += 1; }
+    sum.bump("twin-case"); for g in &groups { sum.bump(&format!("twin-family:{}", g.family)); sum.bump(&format!("twin-position:{}-depth{}", ["s", "p", "o", "g"][g.pos], g.levels.len())); sum.bump(&format!("twin-group-size:{}", g.atoms.len())); }
+    sum.bump(&format!("twin-variant:{mut_name}")); if recased { sum.bump("twin-recased-copy"); } if padded { sum.bump("twin-padded-beyond-insertion-sort"); } if nb1 > 0 { sum.bump("twin-with-blank-nodes"); } else { sum.bump("twin-all-ground"); }
+    sum.bump(&format!("twin-answer:{}", results[0].0));
+    if sum.samples.len() < 6 && nontrivial && nb1 > 0 { sum.samples.push(format!("case {idx}: {what}; d1={d1:?} d2={d2:?} => {} in {} orders", results[0].0, orders.len())); }
+    sum.evaluations += 1;
+    // ---- Coq: the twin structure in the model; the answers for a sample of the orders: the first one (both argument orders), one
+    // other relative order of the twins and the last shuffle (first argument order), and always, in both argument orders, those
+    // on which an oracle fired or whose answer differs from the first one
+    let n_twin_orders = orders.len() - 3;
+    let mut pick: Vec<(usize, bool)> = vec![(0, true)]; if n_twin_orders > 1 { pick.push((1 + r.below(n_twin_orders - 1), false)); } pick.push((orders.len() - 1, false));
+    for oi in 0..orders.len() { if suspicious.contains(&oi) || results[oi] != results[0] { pick.retain(|x| x.0 != oi); pick.push((oi, true)); } }
+    pick.sort(); pick.dedup(); if pick.len() > 10 { pick.truncate(10); }
+    let mut body = format!("let d1 := {} in ", coq_list(d1.iter().map(c_quad)));
+    body.push_str(&groups.iter().map(|g| g.coq("d1")).collect::<Vec<_>>().join(" && "));
+    body.push_str(&format!(" && orders_ok d1 {}", coq_list(pick.iter().map(|(oi, both)| format!("({}, {}, {})", coq_list(orders[*oi].1.iter().map(c_quad)), coq_bool(results[*oi].0), coq_opt(if *both { Some(coq_bool(results[*oi].1).to_string()) } else { None }))))));
+    // the model enumerates every relative order of the first group itself (every 6th case, unpadded, group of at most 3, at most 6 blank nodes)
+    if idx % 6 == 0 && !padded && gpos[0].len() <= 3 && nb1 <= 6 && results.iter().all(|x| *x == results[0] && x.0 == x.1) {
+        let grp: Vec<Q> = gpos[0].iter().map(|p| d2[*p].clone()).collect(); let rest: Vec<Q> = (0..d2.len()).filter(|p| !gpos[0].contains(p)).map(|p| d2[p].clone()).collect();
+        let cut = r.below(rest.len() + 1);
+        body.push_str(&format!(" && all_orders_ok d1 {} {} {} {}", coq_list(rest[..cut].iter().map(c_quad)), coq_list(grp.iter().map(c_quad)), coq_list(rest[cut..].iter().map(c_quad)), coq_bool(results[0].0)));
+        sum.bump("twin-model-enumerates-all-orders");
+    }
+    // the graph entry point of the model on the default graphs of the first order
+    { let tr = |d: &[Q]| -> Vec<[ST; 3]> { d.iter().filter(|q| q.1.is_none()).map(|q| q.0.clone()).collect() }; let (t1, t2) = (tr(&d1), tr(&orders[0].1));
+      let ga = isomorphic_graphs(&t1, &t2).unwrap();
+      body.push_str(&format!(" && gr_ok {} {} (ROk {}) {} {}", coq_list(t1.iter().map(|t| format!("ROk {}", c_trip(t)))), coq_list(t2.iter().map(|t| format!("ROk {}", c_trip(t)))), coq_bool(ga), t1.len(), t2.len())); }
+    body
+}
+
 fn main() {
     let a = parse_args();
     let mut sum = Summary::default();
     sum.rule = "case = (dataset shape: cycle / clique with blank graph name / disjoint isomorphic components + star / quoted triples containing blank nodes / random generalized quads; second dataset = renamed+shuffled copy, or a mutant: one ground term changed, one statement added or removed, two blank nodes merged, one split; pair of container types); \
 non-trivial = at least 2 blank nodes and the pair passes the size and blanked-statement pre-checks (so the colour refinement decides); distinct = distinct printed pair; \
-every case additionally runs the two entry points on fallible versions of the pair (0, 1 or 2 errors inserted at generated positions of each argument: result, error side and code, items pulled from each argument), isomorphic_graphs on the default graphs or the unions of all graphs, and on a graph view of the first dataset".into();
+every case additionally runs the two entry points on fallible versions of the pair (0, 1 or 2 errors inserted at generated positions of each argument: result, error side and code, items pulled from each argument), isomorphic_graphs on the default graphs or the unions of all graphs, and on a graph view of the first dataset; \
+TWIN stream (case ids from 1000000, one per 4 random cases): groups of 2..4 statements identical up to blank node labels except for ONE ground atom (language tag in any case mix, datatype, lexical form, IRI, variable, kind of term, graph name or its absence) at one position (s/p/o/g, depth 0..2 in quoted triples), the rest ground or with shared / per-twin blank nodes, Vec on both sides, the renamed (re-cased) copy enumerating each group in EVERY relative order + reversal + shuffles + the other containers + the graph entry point; mutants of one twin; non-trivial = passes the size / blank count / blanked-statement pre-checks".into();
     let base = Rng::new(a.seed);
     let mut cases = vec![]; let mut seen = HashSet::new();
-    let range: Vec<usize> = match a.only { Some(i) => vec![i], None => (0..a.n).collect() };
+    let range: Vec<usize> = match a.only { Some(i) if i >= TWIN_BASE => vec![], Some(i) => vec![i], None => (0..a.n).collect() };
+    // the twin stream: one case for every 4 cases of the random stream, numbered from TWIN_BASE
+    let twin_range: Vec<usize> = match a.only { Some(i) if i >= TWIN_BASE => vec![i], Some(_) => vec![], None => (0..(a.n / 4).max(1)).map(|j| TWIN_BASE + j).collect() };
     for idx in range {
         let mut r = base.fork(idx as u64);
         let d1 = dedup(&gen_dataset(&mut r));
@@ -289,8 +521,9 @@ every case additionally runs the two entry points on fallible versions of the pa
         }
         cases.push((idx, body));
     }
+    for idx in twin_range { let body = twin_case(idx, &base, a.only.is_some(), &mut sum, &mut seen); cases.push((idx, body)); }
     if a.only.is_none() {
-        sum.shards = write_shards(&a.out, "From Sophia.C07 Require Import Model LoopModel EntryModel.", &cases, a.shards);
+        sum.shards = write_shards(&a.out, "From Sophia.C07 Require Import Model LoopModel EntryModel TwinModel.", &cases, a.shards);
         std::fs::write(format!("{}/summary.json", a.out), sum.to_json()).unwrap();
     }
     println!("c07: {} cases, {} distinct non-trivial, {} oracle failures", sum.evaluations, sum.distinct_nontrivial, sum.oracle_failures.len());
